@@ -40,6 +40,11 @@ pub fn run_project(cli: &str, dir: &Path, files: &[(String, String)], args: &[St
         std::fs::create_dir_all(p.parent().unwrap()).unwrap();
         std::fs::write(&p, text).unwrap();
     }
+    run_prepared(cli, dir, args, timeout_s)
+}
+
+/// Runs the CLI in a project directory as it stands (e.g. a second run over the outputs of a first one).
+pub fn run_prepared(cli: &str, dir: &Path, args: &[String], timeout_s: u64) -> CliRun {
     let mut before = BTreeMap::new();
     walk(dir, dir, &mut before);
     // the stage trace lives OUTSIDE the project directory (the directory is diffed before / after)
@@ -162,6 +167,22 @@ pub fn run(args: &[String]) -> i32 {
             let dir = scratch.join(format!("w{w}_p{i}"));
             let r = run_project(&cli, &dir, &files, &a, 60);
             let mut e = r.to_json(c["texts"].as_bool().unwrap_or(true));
+            // an optional SECOND run in the same directory after some of the first run's outputs were deleted
+            if let Some(sfx) = c["rerunAfterDelete"].as_array() {
+                let sfx: Vec<String> = sfx.iter().map(|x| x.as_str().unwrap_or("").to_string()).collect();
+                let mut removed = vec![];
+                for rel in r.after.keys() {
+                    if !r.before.contains_key(rel) && sfx.iter().any(|x| rel.ends_with(x.as_str())) {
+                        let _ = std::fs::remove_file(dir.join(rel));
+                        removed.push(rel.clone());
+                    }
+                }
+                let r2 = run_prepared(&cli, &dir, &a, 60);
+                let mut e2 = r2.to_json(false);
+                e2["removedBefore"] = json!(removed);
+                e2["existsAfter"] = json!(r2.after.keys().collect::<Vec<_>>());
+                e["second"] = e2;
+            }
             e["ev"] = json!("CliRun");
             e["id"] = c["id"].clone();
             e["dir"] = json!(dir.to_string_lossy());
